@@ -143,6 +143,11 @@ func (ts *TS) intra(fn *ssa.Function, in Mask, check func(ins ssa.Instruction, m
 			if cur == 0 {
 				continue
 			}
+			switch ins.(type) {
+			case *ssa.Defer, *ssa.Go:
+				// deferred calls take effect at RunDefers; a go statement runs elsewhere
+				continue
+			}
 			if ts.Spec.NoReturn != nil && ts.Spec.NoReturn(ins) {
 				cur = 0
 				continue
